@@ -40,7 +40,21 @@ func DrawAnimSeq(t *rapid.T, maxCanvas, maxFrames, minDur int, alphas []string) 
 	s.Alpha = rapid.SampledFrom(alphas).Draw(t, "animAlpha")
 	s.Content = rapid.SampledFrom([]string{"flat", "flat", "pal4", "pal16", "gradient", "photo", "noise", "tiled"}).Draw(t, "animContent")
 	seed := rapid.Uint64().Draw(t, "animSeed")
-	base := RenderContent(s.CW, s.CH, s.Content, s.Alpha, seed)
+	render := func(seed uint64) []byte {
+		if s.Alpha != "semi-strip" {
+			return RenderContent(s.CW, s.CH, s.Content, s.Alpha, seed)
+		}
+		// opaque ground with a short run of translucent pixels
+		b := RenderContent(s.CW, s.CH, s.Content, "opaque", seed)
+		rr := NewRng(seed ^ 0x77)
+		n := 1 + rr.Intn(minI(12, s.CW*s.CH))
+		start := rr.Intn(s.CW*s.CH - n + 1)
+		for i := start; i < start+n; i++ {
+			b[i*4+3] = byte(1 + rr.Intn(254))
+		}
+		return b
+	}
+	base := render(seed)
 	n := rapid.IntRange(1, maxFrames).Draw(t, "nFrames")
 	r := NewRng(seed ^ 0x51)
 	cur := append([]byte(nil), base...)
@@ -48,7 +62,7 @@ func DrawAnimSeq(t *rapid.T, maxCanvas, maxFrames, minDur int, alphas []string) 
 	for i := 0; i < n; i++ {
 		edit := "first"
 		if i > 0 {
-			edit = rapid.SampledFrom([]string{"identical", "small-rect", "small-rect", "small-rect", "pixel", "large", "alpha-only", "border", "smaller-image", "new-picture"}).Draw(t, "edit")
+			edit = rapid.SampledFrom([]string{"identical", "small-rect", "small-rect", "small-rect", "pixel", "large", "alpha-only", "border", "smaller-image", "new-picture", "repaint-existing", "repaint-flat"}).Draw(t, "edit")
 		}
 		w, h := s.CW, s.CH
 		next := append([]byte(nil), cur...)
@@ -61,7 +75,7 @@ func DrawAnimSeq(t *rapid.T, maxCanvas, maxFrames, minDur int, alphas []string) 
 			switch s.Alpha {
 			case "binary":
 				a = []byte{0, 255}[r.Intn(2)]
-			case "opaque":
+			case "opaque", "semi-strip":
 				a = 255
 			default:
 				a = r.Byte()
@@ -106,7 +120,7 @@ func DrawAnimSeq(t *rapid.T, maxCanvas, maxFrames, minDur int, alphas []string) 
 				for x := x0; x < x0+rw; x++ {
 					o := (y*s.CW + x) * 4
 					switch s.Alpha {
-					case "opaque":
+					case "opaque", "semi-strip":
 					case "binary":
 						next[o+3] ^= 0xff
 					default:
@@ -114,10 +128,38 @@ func DrawAnimSeq(t *rapid.T, maxCanvas, maxFrames, minDur int, alphas []string) 
 					}
 				}
 			}
+		case "repaint-existing", "repaint-flat":
+			// repaint (almost) everything with one flat opaque colour; non-opaque pixels (and, for
+			// repaint-flat, a kept rectangle) stay as they are. With repaint-existing the colour is one
+			// that already occurs, so the unchanged pixels form a scattered pattern inside the changed area.
+			c := [4]byte{r.Byte(), r.Byte(), r.Byte(), 255}
+			if edit == "repaint-existing" {
+				for try := 0; try < 20; try++ {
+					o := r.Intn(s.CW*s.CH) * 4
+					if cur[o+3] == 255 {
+						c = [4]byte{cur[o], cur[o+1], cur[o+2], 255}
+						break
+					}
+				}
+			}
+			kx, ky := r.Intn(s.CW), r.Intn(s.CH)
+			kw, kh := 1+r.Intn(minI(6, s.CW-kx)), 1+r.Intn(minI(3, s.CH-ky))
+			for y := 0; y < s.CH; y++ {
+				for x := 0; x < s.CW; x++ {
+					o := (y*s.CW + x) * 4
+					if cur[o+3] != 255 {
+						continue
+					}
+					if edit == "repaint-flat" && x >= kx && x < kx+kw && y >= ky && y < ky+kh {
+						continue
+					}
+					setpx(x, y, c)
+				}
+			}
 		case "smaller-image":
 			w, h = 1+r.Intn(s.CW), 1+r.Intn(s.CH)
 		case "new-picture":
-			next = RenderContent(s.CW, s.CH, s.Content, s.Alpha, r.U64())
+			next = render(r.U64())
 		}
 		pic := AnimPic{W: w, H: h, Edit: edit}
 		if w != s.CW || h != s.CH {
